@@ -138,7 +138,12 @@ def gen_match_records(rng, tier, cfgs, n_random, exhaustive_shapes, with_chain=T
         chain = _stricter(mm, thr) if with_chain and kind != "merge" and thr in (gen.ASSD_THRESHOLDS + gen.THRESHOLDS) else []
         from .rec_pipeline import LAYOUTS
         layout = rng.choice(LAYOUTS) if rng.random() < 0.35 else "C"
-        recs.append(rec_match(pred, ref, kind, mm, tuple(thr), chain=chain, meta={"gen": "random"}, layout=layout))
+        history = ()
+        if rng.random() < 0.2:
+            # the same pair object was matched before, with another metric / matcher / threshold
+            history = tuple((hk, hm, tuple(ht)) for hk, hm, ht in rng.sample(cfgs, min(len(cfgs), rng.randint(1, 2))))
+        recs.append(rec_match(pred, ref, kind, mm, tuple(thr), chain=chain, meta={"gen": "random" + ("+history" if history else "")},
+                              layout=layout, history=history))
     return recs
 
 
